@@ -286,6 +286,21 @@ class _Hints:
 
 
 def run(U, rep, tier):
+  # R13.5: the fusing helpers are functions of the document at hand: nothing in brax.io.* is memoised (a cached parse whose
+  # array is then transformed in place hands the already-offset end points to the next element with the same text)
+  n_ = 0
+  for q_, f_ in sorted(U.funcs.items()):
+    if not f_.mod.name.startswith('brax.io.'):
+      continue
+    n_ += 1
+    for d_ in getattr(f_.node, 'decorator_list', []):
+      tgt_ = d_.func if isinstance(d_, ast.Call) else d_
+      nm_ = ast.unparse(tgt_)
+      if nm_.split('.')[-1] in ('lru_cache', 'cache', 'cached_property', 'memoize'):
+        rep.fail('R13.5', 'memo|' + q_, '%s is memoised (`@%s`): fusing would depend on what was parsed / transformed before' % (q_, nm_),
+                 where=f_.where(d_), construct=ast.unparse(d_)[:80])
+  rep.check(n_ >= 10, 'R13.5', 'the fusing / loading helpers are not memoised', 'only %d functions of brax.io.* seen' % n_,
+            construct='%d functions scanned for lru_cache / cache decorators' % n_)
   geometry_preserved(U, rep, tier)
   ok, why = transform_do_law(U)
   rep.check(ok, 'R13.2', '_transform_do == Transform o Transform (unit parent quaternion)',
